@@ -37,7 +37,8 @@ MANIFEST = {
             "a function of interfaces and gateway only, never of the ARP cache (the host-side resolution function is translated "
             "statement by statement). Application exchanges identified by a (port, protocol) key (receiver look-up, open-port test, "
             "answer to the source) are in the model; the addressee, termination and fuel theorems range over them. Float metrics: on "
-            "finite metrics the float loop is the integer loop; nan refutes lowest-metric-on-ties (open finding). Tie: constants, comparison "
+            "finite metrics the float loop is the integer loop; for every table the selected entry has no strictly cheaper rival of its "
+            "prefix, and for every nan-free (= constructible: RouteEntry refuses NaN) table it is the minimum in -inf <= finite <= inf. Tie: constants, comparison "
             "operators, acceptance tests, call order and what the ranking argument rests on (DMZ broadcast guard, routers resolve "
             "without ARP, replies start nothing, ARP pairs genuine, find_best_route pure) regenerated from the source "
             "(Gen/Forward.lean) + rigs R-route and R-net (whole event streams, results and final tables of generated topologies "
@@ -145,6 +146,8 @@ def _run_route(ctx: Ctx):
         for kd in ("inf", "-inf", "nan"):
             if kd in kinds:
                 ctx.count("route-float-metric:" + kd)
+        ctx.count("route-float-surface:" + c.get("surface", "api-float"))
+        ctx.count("route-float-nan-refused", sum(1 for a in impl if a == "refused"))
         ctx.case(["route-float", c], any(a.startswith("route") for a in impl))
         if impl == model:
             fagree += 1
